@@ -7,7 +7,7 @@ lean/Driver/WoehlerAnalysis.lean (ops `c18.*`), theorems lean/Proofs/C18.lean.
 Tolerances (documented choice).  Elementary and Probit are closed forms (sums, two regressions, sort): a transformed run
 must reproduce every parameter to 1e-9 relative (summation order and libm ulps, amplified by the regressions; observed
 <= 4e-14).  MaxLikeInf / MaxLikeFull end in scipy's Nelder-Mead (`optimize.fmin`); since fix fc45e06 the code optimises
-parameters RELATIVE to their start values with xtol = 1e-10, ftol = 1e-12, so the objective handed to the optimiser is the
+parameters RELATIVE to their start values (a zero start value is left unscaled) with xtol = 1e-10 and scipy's default ftol, so the objective handed to the optimiser is the
 same function for a scaled / permuted data set (theorems maxLikeInf_* / maxLikeFull_*: equivariance for ANY optimiser);
 two real runs still differ by rounding in the objective, which Nelder-Mead amplifies to about sqrt(eps) in the
 parameters: the relations are checked at ML_RTOL (measured, see below).
@@ -135,6 +135,7 @@ class _OptimizeProxy:
         r = self.__dict__["_real"].fmin(counted, x0, args=args, **kw)
         call["xopt"] = np.array(r[0] if full else r, dtype=np.float64)
         call["evaluations"] = n[0]
+        call["warnflag"] = int(r[4]) if full else None
         if self.cap is None:
             self.max_evaluations = max(self.max_evaluations, n[0])
         return r
@@ -169,7 +170,7 @@ def has_runouts(rows):
     return any(not r[2] for r in rows)
 
 
-def analyze(name, rows, labels=None, stub=None, calls=None, real_fmin=False, **dfkw):
+def analyze(name, rows, labels=None, stub=None, calls=None, real_fmin=False, fixed=None, **dfkw):
     """run one analyzer of the real code; returns dict of floats or {'error': kind}.  `stub(call)` = answer of the
     optimiser (correspondence only); `calls` collects the recorded fmin calls"""
     woe = _woe()
@@ -185,14 +186,19 @@ def analyze(name, rows, labels=None, stub=None, calls=None, real_fmin=False, **d
             warnings.simplefilter("ignore")
             with np.errstate(all="ignore"):
                 try:
-                    r = A(make_df(rows, labels, **dfkw)).analyze()
+                    an = A(make_df(rows, labels, **dfkw))
+                    r = an.analyze(fixed_parameters=dict(fixed)) if fixed is not None else an.analyze()
                 except ValueError as e:
                     return {"error": "ValueError: " + str(e)[:60]}
                 except OptimiserBudgetExceeded as e:
                     return {"error": "BUDGET: " + str(e), "budget": True}
                 except Exception as e:      # any other exception of the code under test is an answer, not an infrastructure error
                     return {"error": type(e).__name__ + ": " + str(e)[:60]}
-        return {k: float(r[k]) for k in KEYS}
+        out = {k: float(r[k]) for k in KEYS}
+        if rec is not None and rec.calls and rec.calls[-1]["mode"] == "real":
+            out["warnflag"] = rec.calls[-1].get("warnflag")
+            out["evaluations"] = rec.calls[-1].get("evaluations")
+        return out
     finally:
         if rec is not None:
             if calls is not None:
@@ -482,6 +488,69 @@ def gen_ml_one_mixed(rng):
     raise RuntimeError("harness: generator could not produce a one-mixed-level data set")
 
 
+def gen_ml_fixed(rng):
+    """MaxLikeFull with user-fixed parameters: values near the elementary estimate (`fixed_rel` = multiples of it; a fixed
+    value far from the data, e.g. k_1 = 30 on data with k about 7, makes the remaining optimum ill-posed: both the old and
+    the repaired code end in false optima there - nothing is claimed)"""
+    c = gen_ml(rng, "MaxLikeFull")
+    keys = rng.choice([["k_1"], ["TN"], ["k_1", "TN"], ["ND"], ["SD"], ["TS"], ["SD", "TS"]])
+    c["fixed_rel"] = {k: (rng.uniform(1.0, 1.15) if k in ("TN", "TS") else rng.uniform(0.9, 1.1)) for k in keys}
+    return c
+
+
+REPO_DATA = ["data_one_runout_load_level", "data_no_mixed_horizons"]
+
+
+def repo_rows(name):
+    """a data set of the repository's own tests (tests/materialdata/woehler/data.py), run-outs at 1e7 cycles"""
+    import importlib.util
+    from . import core
+    spec = importlib.util.spec_from_file_location("c18_repo_woehler_data", os.path.join(core.REPO, "tests/materialdata/woehler/data.py"))
+    m = importlib.util.module_from_spec(spec)
+    spec.loader.exec_module(m)
+    df = getattr(m, name)
+    return [[float(l), float(c), bool(c < 1e7)] for l, c in zip(df["load"].values, df["cycles"].values)]
+
+
+def gen_ml_repo(rng, name, only=None):
+    """MaxLikeFull on a repository data set whose likelihood has a flat ridge (one run-out level only / no mixed level:
+    the endurance limit is not determined by the data): the optimiser ends on its budget wherever it is"""
+    rows = repo_rows(name)
+    c = {"kind": "ml", "analyzer": "MaxLikeFull", "rows": rows, "repo_data": name, "points": [], "perm_seed": rng.randrange(10 ** 6),
+         "factors": gen_factors(rng), "labels": None, "rel": gen_rel(rng)}
+    if only:
+        c["only_variants"] = only          # (quick tier: every run ends on the optimiser's budget, 10 s each)
+    return c
+
+
+def gen_zero_start(rng):
+    """a data set whose Elementary estimate is k_1 = -0.0, TS = 0 EXACTLY: the finite zone holds two load levels with the
+    same two cycle numbers (powers of ten: the regression slope cancels exactly, in this row order) - the start values of
+    MaxLikeFull's search for k_1 and TS are 0.  The fractures of the infinite zone still determine a slope."""
+    for _ in range(200):
+        rows, p = gen_rows(rng, ml=True)
+        m, fin, inf = zone_info(rows)
+        tops = sorted({r[0] for r in fin})
+        L1, L2 = (tops[0], tops[-1]) if len(tops) >= 2 else (m * 1.15, m * 1.3)
+        a, b = rng.choice([(1e4, 1e5), (1e5, 1e6), (1e4, 1e6)])
+        out = [[L1, a, True], [L1, b, True], [L2, a, True], [L2, b, True]] + [r for r in rows if r[0] <= m]
+        if ml_admissible(out) and mlfull_mode(out) == "free":
+            return {"kind": "zero_start", "rows": out, "rel": gen_rel(rng), "points": [p]}
+    raise RuntimeError("harness: generator could not produce a zero-start data set")
+
+
+def big_rows(seed, n_per_level):
+    """a very large series (9 levels x n specimens; |log-likelihood| about 7e3 for n = 3000)"""
+    rng = np.random.default_rng(seed)
+    SD, k, ND, TN, TS = 320., 6., 1e6, 4., 1.2
+    rows = []
+    for L in [500., 450., 400., 370., 345., 330., 315., 300., 285.]:
+        sd_i = SD * 10 ** (rng.normal(size=n_per_level) * C_STD * math.log10(TS))
+        N = ND * (L / SD) ** (-k) * 10 ** (rng.normal(size=n_per_level) * C_STD * math.log10(TN))
+        rows += [[L, 1e7, False] if (L < s_ or c_ >= 1e7) else [L, float(c_), True] for s_, c_ in zip(sd_i, N)]
+    return rows
+
+
 def gen_history(rng):
     """a session: `first` is analysed, then `rows`; the results for `rows` must be those of a fresh interpreter"""
     rows, p = gen_rows(rng, ml=True)
@@ -641,7 +710,9 @@ class C18(Prop):
             "level with a run-out) | no run-outs | extra pure run-out levels; endurance limits 1e-4 .. 1e4; shuffled rows) | "
             "staircase (series topped by a run-out level: empty finite zone, transition guessed from the two highest levels) | ml "
             "(data set with >= 2 mixed levels + analyzer MaxLikeInf / MaxLikeFull, or ONE mixed level + MaxLikeFull: TS fixed) | "
-            "exact (data exactly on a Basquin line) | exact_batch (40 exact data sets: share with TN = TS = 1) | history.  "
+            "exact (data exactly on a Basquin line) | exact_batch (40 exact data sets: share with TN = TS = 1) | history | ml with "
+            "user-fixed parameters near the elementary estimate | ml on the repository's flat-ridge data sets | zero_start (Elementary "
+            "gives k_1 = -0.0, TS = 0 exactly: start values 0 of MaxLikeFull's search) | big (27000 tests: evaluation budget).  "
             "Correspondence: Lean model (Float) vs real code for zones (membership in the model's zone lists), irrelevant-run-out "
             "dropping, Elementary, Probit, the likelihood functions, and the ML pipelines with the optimiser replaced on both "
             "sides by the same given answer (objective values at given relative points, fixed-parameter mode, result) (1e-9 "
@@ -697,6 +768,25 @@ class C18(Prop):
         "on such data sets (counted: ml_start_likelihood_minus_inf_not_optimised); any other run that asks for more than 30000 "
         "objective evaluations is reported (class optimiser-budget-exceeded; the unchanged code needs < 1500; with the code's "
         "own limit maxfun = 1e4 since 8a1c973 this can fire only if that limit is raised or dropped)",
+        "C18 (ill-posed optima): the relations between PARAMETERS of two ML runs are claimed where the optimum is well defined.  "
+        "Where the optimiser stops on its iteration budget (warnflag 1; since C18-maxlike-relative-followup.diff the code warns) "
+        "the likelihood is flat along a ridge - e.g. one run-out level only or no mixed level (repository data sets "
+        "data_one_runout_load_level, data_no_mixed_horizons): ND * SD^k is determined, SD is not - and the answer depends on the row "
+        "order at EQUAL likelihood (also with warnflag 0: it may stop anywhere on the ridge).  The oracle recognises the ridge by "
+        "the likelihoods: the two answers (transformed one mapped back) agree to 2e-9 and their geometric midpoint is not better - "
+        "then the parameters are not compared (counted: ml_flat_ridge_equal_likelihood); otherwise a parameter deviation is a failure",
+        "C18 (user-fixed parameters of MaxLikeFull): checked by the oracle only (not in the Lean model), with fixed values within "
+        "10 - 15 % of the elementary estimate; a fixed value far from the data (k_1 = 30 on data with k about 7, ND = 1e9) leaves "
+        "an optimum that Nelder-Mead does not find reliably (old and repaired code end in different false optima, a restart "
+        "improves both): nothing is claimed there",
+        "C18 (formalisation choice): a parameter the analyzer is free to move must be movable: a free parameter that comes back "
+        "bit-identical to its start value although changing it alone raises the likelihood is reported (class ml-frozen-parameter; "
+        "mechanism: start value 0 times the optimisation variable).  Whether a converged answer is a local maximum in every "
+        "parameter is recorded only (Nelder-Mead may stop at a non-stationary point).  Exact zero start values arise when the "
+        "finite-zone regression slope cancels exactly (two levels with the same cycle numbers, in this row order); a slope of "
+        "1e-17 instead of 0 is scaled by itself and moves as slowly as before the repair - not covered",
+        "C18: a very large series (27000 tests, |log-likelihood| 7e3) must converge within 4000 objective evaluations (an absolute "
+        "ftol below the rounding noise of the objective never stops: 1e4 evaluations, 9 x slower)",
         "C18: bayesian.py (pymc) is not part of the property",
         "C18 (formalisation choice): 'the estimate for a data set' is a function of the tests (load, cycles, fracture) alone - "
         "not of the row labels of the DataFrame (checked: repeating / shuffled / string labels vs a fresh RangeIndex), not of the "
@@ -737,19 +827,26 @@ class C18(Prop):
             yield gen_ml(rng, "MaxLikeFull")
         for _ in range(n_one):
             yield gen_ml_one_mixed(rng)
+        for _ in range(8 if big else 2):
+            yield gen_ml_fixed(rng)
+        for _ in range(6 if big else 2):
+            yield gen_zero_start(rng)
+        for name in (REPO_DATA if big else [rng.choice(REPO_DATA)]):
+            yield gen_ml_repo(rng, name, only=None if big else ["rows permuted"])
+        yield {"kind": "big", "seed": rng.randrange(10 ** 6), "n_per_level": 3000}
 
     # -------------------------------------------------------------- correspondence
     def _plan(self, case):
         """the correspondence lines of a case: list of (tag, model protocol line); tags steer `impl_lines` and `compare`"""
         k = case["kind"]
-        if k in ("history", "exact_batch", "norun_real"):
+        if k in ("history", "exact_batch", "norun_real", "big"):
             return []
         rows = case["rows"]
         w = wire(rows)
         if k == "exact":
             return [("curve_exact", f"c18.elem {w}")]
         plan = [("zones", f"c18.zones {w}"), ("drop", f"c18.drop {w}")]
-        if k == "data":
+        if k in ("data", "zero_start"):
             plan += [("curve:Elementary", f"c18.elem {w}"), ("curve:Probit", f"c18.probit {w}")]
         if k == "staircase":
             plan += [("sdts:Probit", f"c18.probit {w}")]
@@ -764,10 +861,15 @@ class C18(Prop):
                 plan.append((("curve" if regular else "sdts") + ":MaxLikeInf",
                              f"c18.mlinf {f2h(rel['stub']['SD'])} {f2h(rel['stub']['TS'])} {w}"))
             if regular and mlfull_accepts(rows):
-                for p in rel["points"]:
+                for p in self._points5(case):
                     plan.append(("obj5", f"c18.mlfullobj {rel5(p)} {w}"))
                 plan.append(("full", f"c18.mlfull {rel5(rel['stub'])} {w}"))
         return plan
+
+    @staticmethod
+    def _points5(case):
+        # zero-start data: the all-ones vector would mean TS = 1 * relScale(0) = 1, a zero standard deviation (0/0 in Phi)
+        return case["rel"]["points"][1:] if case["kind"] == "zero_start" else case["rel"]["points"]
 
     def model_lines(self, case):
         return [line for _tag, line in self._plan(case)]
@@ -851,7 +953,7 @@ class C18(Prop):
                 elif tag in ("obj2", "obj5"):
                     name = "MaxLikeInf" if tag == "obj2" else "MaxLikeFull"
                     r, call = stubbed.setdefault(name, self._stub_run(name, case))
-                    p = case["rel"]["points"][obj_i[tag]]
+                    p = (self._points5(case) if tag == "obj5" else case["rel"]["points"])[obj_i[tag]]
                     obj_i[tag] += 1
                     if "error" in r:
                         out.append(r["error"])
@@ -872,7 +974,11 @@ class C18(Prop):
                         n = len(call["x0"]) if call is not None else -1
                         mode = {5: "free", 4: "fixTS", 3: "norun"}.get(n, "uncaptured" if call is None else f"n={n}")
                         self._count("mlfull_mode_" + mode)
-                        out.append(mode + " " + " ".join(f2h(r[key]) for key in KEYS))
+                        free = list(call["args"][0]) if call is not None else []
+                        x0 = [f2h(call["x0"][free.index(key)]) if key in free else "-" for key in KEYS]     # "-": fixed by the code
+                        if any(key in free and call["x0"][free.index(key)] == 0.0 for key in KEYS):
+                            self._count("mlfull_zero_start_values")
+                        out.append(mode + " " + " ".join(x0) + " " + " ".join(f2h(r[key]) for key in KEYS))
         return out
 
     def _probit_branches(self, rows):
@@ -898,7 +1004,6 @@ class C18(Prop):
             ta, tb = a.split(), b.split()
             if len(ta) != len(tb):
                 return f"line {i} ({tag}): model={a[:200]!r} impl={b[:200]!r}"
-            offset = 1 if tag == "full" else 0
             flat = False
             if tag.endswith(":Probit") and len(ta) == 5 and all(len(t) == 16 for t in ta + tb):
                 # probit regression with slope 0 within rounding (e.g. levels with 1 of 1 and 2 of 3 fractures: both 0.5):
@@ -907,7 +1012,7 @@ class C18(Prop):
             for j, (x, y) in enumerate(zip(ta, tb)):
                 if tag in ("lik", "obj2", "obj5"):      # a log-likelihood of -inf: `none` in the model, or a sum that is -inf
                     x, y = ("-inf" if t == "fff0000000000000" else t for t in (x, y))
-                if x == y:
+                if x == y or (tag == "full" and y == "-"):
                     continue
                 if tag in ("lik", "obj2", "obj5") and "-inf" in (x, y):
                     other = y if x == "-inf" else x
@@ -915,7 +1020,8 @@ class C18(Prop):
                         continue      # a factor Phi(z) at z < -37: 0 in one implementation of Phi, 1e-310 in the other (ln(2.2e-308) = -708)
                 if len(x) == 16 and len(y) == 16:
                     fx, fy = h2f(x), h2f(y)
-                    key = KEYS[j - offset] if (tag.startswith(("curve", "sdts")) or tag == "full") and 0 <= j - offset < 5 else None
+                    key = (KEYS[(j - 1) % 5] if tag == "full" and 1 <= j <= 10 else
+                           KEYS[j] if tag.startswith(("curve", "sdts")) and j < 5 else None)
                     if tag == "curve_exact" and key in ("TN", "TS") and basquin_spread(case["rows"], case["k"]) < EXACT_SPREAD:
                         continue      # TN / TS of a 0/0 regression (shifted cycles coincide within rounding): noise on both sides (see the oracle)
                     if flat and key in ("SD", "ND", "TS"):
@@ -963,6 +1069,10 @@ class C18(Prop):
             names = ["Elementary", "Probit"] + (["MaxLikeInf"] if ml_admissible(case["rows"]) else [])
             return (self._oracle_zones(case) or self._oracle_fatigue_data(case)
                     or self._oracle_equivariance(case, names, CF_RTOL, rtols={"MaxLikeInf": ML_RTOL}))
+        if k == "zero_start":
+            return self._oracle_zero_start(case)
+        if k == "big":
+            return self._oracle_big(case)
         if k == "ml":
             if not ml_admissible(case["rows"]) and not (case["analyzer"] == "MaxLikeFull" and mlfull_mode(case["rows"]) == "fixTS"):
                 self._count("ml_cases_outside_claimed_domain")       # (old corpus cases) the optimiser runs away: nothing is claimed
@@ -1062,6 +1172,19 @@ class C18(Prop):
             floor = analyze("Elementary", rows) if tol != CF_RTOL else {}
             if "error" in floor:
                 floor = {}
+            fixed_rel = case.get("fixed_rel") if name == "MaxLikeFull" else None
+            if fixed_rel and not floor:
+                fixed_rel = None
+
+            def fixed_for(fac):
+                return {k: floor[k] * m * fac.get(k, 1.0) for k, m in fixed_rel.items()} if fixed_rel else None
+            if fixed_rel:
+                base = analyze(name, rows, fixed=fixed_for({}))
+                self._last_base = {(name, json.dumps(rows)): base}
+                self._count("mlfull_user_fixed_" + "+".join(sorted(fixed_rel)))
+                for k, v in fixed_for({}).items():
+                    if "error" not in base and not same(base[k], abs(v), 1e-12):
+                        return (f"MaxLikeFull(fixed_parameters={fixed_for({})!r}): returns {k} = {base[k]!r}", "fixed-parameter-not-kept")
             if base.get("budget"):
                 return (f"{name}: {base['error']} (the unchanged code needs < 1500)", "optimiser-budget-exceeded")
             if must_accept and "error" in base:
@@ -1089,9 +1212,11 @@ class C18(Prop):
                 a, b = (factors[0], factors[1]) if case["perm_seed"] % 2 else (factors[1], factors[0])
                 variants.append((f"loads x {a:g}", scaled(rows, cl=a), {"SD": a}, None, {}))
                 variants.append((f"cycles x {b:g}", scaled(rows, cn=b), {"ND": b}, None, {}))
+            if case.get("only_variants"):
+                variants = [v for v in variants if any(v[0].startswith(p) for p in case["only_variants"])]
             variants.sort(key=lambda v: 0 if v[2] else 1)      # the scalings first (stable): a broken relation shows after few runs
             for what, vrows, fac, vlabels, dfkw in variants:
-                got = analyze(name, vrows, vlabels, **dfkw)
+                got = analyze(name, vrows, vlabels, fixed=fixed_for(fac), **dfkw)
                 self._count("analyzer_runs_" + name)
                 if got.get("budget"):
                     return (f"{name}: {what}: {got['error']} (the unchanged code needs < 1500)", "optimiser-budget-exceeded")
@@ -1115,14 +1240,105 @@ class C18(Prop):
                     # SD, ND, TN, TS are computed as 10^x: a relative error eps of x is ln(10) |x| eps in the value
                     cond = max(1.0, abs(math.log10(abs(want))) / 3.0) if (key != "k_1" and want == want and 0 < abs(want) < math.inf) else 1.0
                     scale = abs(floor.get(key, 0.0) * fac.get(key, 1.0))
+                    if tol != CF_RTOL and not (base.get("warnflag") or got.get("warnflag")):
+                        den = max(abs(want), scale if scale == scale and scale < math.inf else 0.0)
+                        if den > 0 and got[key] == got[key]:
+                            self.stats["max_ml_relative_deviation_converged"] = max(self.stats.get("max_ml_relative_deviation_converged", 0.0), abs(got[key] - want) / den)
                     if scale == scale and scale < math.inf and abs(got[key] - want) <= tol * cond * scale:
                         if not same(got[key], want, tol * cond):
                             self._count("ml_compared_on_start_scale")
                         continue
                     if not same(got[key], want, tol * cond):
+                        if tol != CF_RTOL:
+                            # Ill-posed optimum?  If the two answers (the transformed one mapped back onto the original data) have
+                            # the SAME likelihood to 2e-9 and the likelihood at their geometric midpoint is not higher either, the
+                            # likelihood is flat between them - a ridge: the data do not determine the parameters (e.g. one
+                            # run-out level only: ND * SD^k is determined, SD is not; the optimiser wanders along it until its
+                            # budget or stops anywhere on it) and the property's relation between the PARAMETERS has no meaning.
+                            # (Two answers near a well-defined maximum differ in likelihood by H d^2 / 2 or have a better midpoint.)
+                            back = {k2: got[k2] / fac.get(k2, 1.0) for k2 in KEYS}
+                            mid = {k2: math.copysign(math.sqrt(abs(base[k2] * back[k2])), base[k2]) for k2 in KEYS}
+                            la, lb, lm = (self._likelihood(name, rows, c) for c in (base, back, mid))
+                            eps = 2e-9 * max(1.0, abs(la))
+                            if abs(la - lb) <= eps and lm <= max(la, lb) + eps:
+                                self._count("ml_flat_ridge_equal_likelihood")
+                                if base.get("warnflag") or got.get("warnflag"):
+                                    self._count("ml_flat_ridge_optimiser_on_budget")
+                                break
+                            return (f"{name}: {what}: {key} = {got[key]!r}, expected {want!r} (original {base[key]!r}); relative deviation "
+                                    f"{abs(got[key] - want) / abs(want) if want else float('inf'):.3g}; log-likelihood of the two answers "
+                                    f"{la!r} / {lb!r}, at their midpoint {lm!r}", "equivariance-" + name)
                         return (f"{name}: {what}: {key} = {got[key]!r}, expected {want!r} (original {base[key]!r}); "
                                 f"relative deviation {abs(got[key] - want) / abs(want) if want else float('inf'):.3g}",
                                 "equivariance-" + name)
+        return None
+
+    def _likelihood(self, name, rows, c):
+        """the code's own log-likelihood of the curve `c` on the (reduced) data: the objective of the analyzer `name`"""
+        woe = _woe()
+        with warnings.catch_warnings():
+            warnings.simplefilter("ignore")
+            with np.errstate(all="ignore"):
+                lh = woe.likelihood.Likelihood(make_df(rows).fatigue_data.irrelevant_runouts_dropped())
+                q = {k: np.float64(c[k]) for k in KEYS}
+                if name == "MaxLikeInf":
+                    return float(lh.likelihood_infinite(q["SD"], q["TS"]))
+                return float(lh.likelihood_total(q["SD"], q["TS"], q["k_1"], q["ND"], q["TN"]))
+
+    def _oracle_local_max(self, name, rows, res, free, start):
+        """A parameter the analyzer is free to move but CANNOT move: it comes back bit-identical to its start value although
+        changing it alone by 0.1 % (by 1e-3 when it is 0) raises the likelihood.  (Mechanism: a start value of 0 multiplied by the
+        optimisation variable stays 0.)  Whether a converged answer is a local maximum in every free parameter is recorded
+        only: Nelder-Mead may report convergence at a non-stationary point (seen on 6-row data sets)."""
+        l1 = self._likelihood(name, rows, res)
+        if not (abs(l1) < math.inf):
+            return None
+        self._count("frozen_parameter_checks_" + name)
+        better = []
+        for key in free:
+            for d in (1e-3, -1e-3):
+                c = dict(res)
+                c[key] = res[key] * (1.0 + d) if res[key] != 0.0 else d
+                l2 = self._likelihood(name, rows, c)
+                if l2 > l1 + 1e-9 * max(1.0, abs(l1)):
+                    better.append((key, c[key], l2))
+                    break
+        if better and res.get("warnflag") == 0:
+            self._count("converged_but_not_a_local_maximum_recorded")
+        for key, v, l2 in better:
+            if res[key] == abs(start[key]):
+                return (f"{name} returns the free parameter {key} = {res[key]!r} bit-identical to its start value, but {key} = {v!r} "
+                        f"alone raises the log-likelihood from {l1!r} to {l2!r}: the search cannot move this parameter",
+                        "ml-frozen-parameter")
+        return None
+
+    def _oracle_zero_start(self, case):
+        rows = case["rows"]
+        el = analyze("Elementary", rows)
+        if "error" in el:
+            return (f"Elementary: {el['error']}", "implementation-raises")
+        self._count("zero_start_elementary_" + ("exact_zero" if (el["k_1"] == 0.0 and el["TS"] == 0.0) else "not_zero"))
+        res = analyze("MaxLikeFull", rows)
+        if res.get("budget"):
+            return (f"MaxLikeFull: {res['error']}", "optimiser-budget-exceeded")
+        if "error" in res:
+            return (f"MaxLikeFull rejects a data set that meets its documented preconditions: {res['error']}", "ml-rejects-admissible-data")
+        self._last_base = {("MaxLikeFull", json.dumps(rows)): res}
+        return self._oracle_ml_start(dict(case, analyzer="MaxLikeFull"))
+
+    def _oracle_big(self, case):
+        """a very large data set: the stopping rule must not depend on the size of the log-likelihood (an ABSOLUTE ftol = 1e-12
+        is below the rounding noise of a log-likelihood of 7e3: the optimiser then runs into its budget, 9 x slower)"""
+        rows = big_rows(case["seed"], case["n_per_level"])
+        for name, cap in (("MaxLikeInf", 600), ("MaxLikeFull", 4000)):
+            res = analyze(name, rows)
+            self._count("big_runs")
+            if "error" in res:
+                return (f"{name} on {len(rows)} tests: {res['error']}", "optimiser-budget-exceeded" if res.get("budget") else "ml-rejects-admissible-data")
+            self.stats["max_big_evaluations_" + name] = max(self.stats.get("max_big_evaluations_" + name, 0), res.get("evaluations") or 0)
+            if res.get("warnflag") != 0 or (res.get("evaluations") or 0) > cap:
+                return (f"{name} on {len(rows)} tests: {res.get('evaluations')} objective evaluations, warnflag {res.get('warnflag')} "
+                        f"(repaired code: about {cap // 4}, converged)", "optimiser-budget-exceeded")
         return None
 
     def _oracle_history(self, case):
@@ -1177,9 +1393,11 @@ class C18(Prop):
                     self._count("mlinf_total_likelihood_" + ("ge" if total(res) >= total(el) - 1e-9 else "lt") + "_elementary")
                 else:
                     mode = mlfull_mode(rows)
-                    start = dict(el)
+                    start = {k: el[k] for k in KEYS}
                     if mode == "norun":
                         start["SD"], start["TS"] = 0.0, 1.0
+                    for k, m in (case.get("fixed_rel") or {}).items():
+                        start[k] = abs(el[k] * m)
                     l0, l1 = total(start), total(res)
                     self._count("ml_start_mode_" + mode)
         self._count("ml_start_checks_" + name)
@@ -1189,6 +1407,15 @@ class C18(Prop):
         if not (l1 >= l0 - 1e-9 * max(1.0, abs(l0))):
             return (f"{name}: log-likelihood of the result {l1!r} is lower than at its start point {start!r}: {l0!r}",
                     "ml-worse-than-start")
+        if True:
+            fixed = set(case.get("fixed_rel") or {})
+            if name == "MaxLikeInf":
+                free = ["SD", "TS"]
+                start = dict(res, SD=start[0], TS=start[1])
+            else:
+                mode = mlfull_mode(rows)
+                free = [k for k in KEYS if k not in fixed and not (mode == "fixTS" and k == "TS") and not (mode == "norun" and k in ("SD", "TS"))]
+            return self._oracle_local_max(name, rows, res, free, start)
         return None
 
     def _exact_one(self, rows, k):
